@@ -982,6 +982,38 @@ fn chk_symbol_call_opt(source: &str, name_prefix: &str, bindings: &[(&str, i64)]
     }
 }
 
+// ---- C13 (command-line path): after compile_modern has added its source-location entries, every function the compiler
+// named is still under its hash with that name, and every other 64-digit key holds a location, not a name
+fn chk_symbols_cli(src: &str, funs: &[&str]) -> Option<Value> {
+    use chialisp::classic::clvm_tools::comp_input::RunAndCompileInputData;
+    use chialisp::classic::platform::argparse::ArgumentValue;
+    use std::collections::HashMap;
+    let text_src = src.to_string();
+    let names: Vec<String> = funs.iter().map(|f| f.to_string()).collect();
+    let res = catch_unwind(move || {
+        let mut a = clvmr::Allocator::new();
+        let mut args: HashMap<String, ArgumentValue> = HashMap::new();
+        args.insert("path_or_code".to_string(), ArgumentValue::ArgString(None, text_src.clone()));
+        let mut cli_syms: HashMap<String, String> = HashMap::new();
+        let ok = RunAndCompileInputData::new(&mut a, &args).ok().and_then(|d| d.compile_modern(&mut a, &mut cli_syms).ok());
+        if ok.is_none() { return Some("compile_modern failed".to_string()); }
+        // every key that carries a recorded argument list is a function's: its value is that function's name
+        for (k, _) in cli_syms.iter() {
+            if let Some(base) = k.strip_suffix("_arguments") {
+                if base.len() != 64 { continue; }
+                match cli_syms.get(base) { Some(v) if names.contains(v) => {}, other => return Some(format!("key {} carries a function's argument list, but its entry is {:?}, not the name of a function of the program", base, other)) }
+            }
+        }
+        for n in names.iter() { if !cli_syms.iter().any(|(k, v)| k.len() == 64 && v == n) { return Some(format!("function {} has no entry in the command-line table", n)); } }
+        None
+    });
+    match res {
+        Ok(Some(o)) => Some(hit(json!({"source": src}), "every function entry of the command-line symbol table holds the function's name".into(), o, "RunAndCompileInputData::compile_modern (compile_file + build_symbol_table_mut entries)")),
+        Err(_) => Some(hit(json!({"source": src}), "no panic".into(), "panic".into(), "compile / symbol table panicked")),
+        _ => None,
+    }
+}
+
 fn chk_bigint_from_bytes(b: &[u8], signed: bool) -> Option<Value> {
     use chialisp::classic::clvm::__type_compatibility__::{Bytes, BytesFromType};
     use chialisp::classic::clvm::casts::{bigint_from_bytes, TConvertOption};
@@ -1027,6 +1059,7 @@ fn chk_opt_levels(body: &str, args_text: &str) -> Option<Value> {
     }
 }
 
+thread_local! { static NOT_ACCEPTED: std::cell::Cell<usize> = std::cell::Cell::new(0); }
 // ---- C01 / C03: compiled code returns what the source means (expected values worked out by hand)
 fn chk_meaning(body: &str, dialect: Option<&str>, args_text: &str, expected_text: &str) -> Option<Value> {
     use chialisp::classic::clvm_tools::binutils::assemble;
@@ -1040,6 +1073,8 @@ fn chk_meaning(body: &str, dialect: Option<&str>, args_text: &str, expected_text
     });
     match res {
         Ok((Ok(g), w)) if g == w => None,
+        // C01 speaks about programs the compiler accepts: a dialect that rejects the program is not in its scope (C02 covers builds that fail)
+        Ok((Err(_), _)) => { NOT_ACCEPTED.with(|c| c.set(c.get() + 1)); None }
         Ok((g, w)) => Some(hit(json!({"source": src, "args": args_text}), format!("{} (bytes {:?})", expected_text, w), format!("{:?}", g), "compile_clvm_text_maybe_opt (no -O) + clvmr run vs hand-computed call-by-value result")),
         Err(_) => Some(hit(json!({"source": src}), "no panic".into(), "panic".into(), "compile or run panicked")),
     }
@@ -1084,8 +1119,35 @@ fn meaning_cases() -> Vec<(&'static str, &'static str, &'static str)> {
         ("(mod (A B) (defun sum (X Y) (+ X Y)) (defun G (X) (sum X &rest (let ((Q (* X 10))) (let ((Q (+ Q 1))) (list Q))))) (G A))", "(3 4)", "34"),
         ("(mod (A B) (defun sum (X Y) (+ X Y)) (sum A &rest (let ((A (* B 10))) (list A))))", "(3 4)", "43"),
         ("(mod (A B) (defun app (F X) (a F (list X))) (defun G (X) (app &rest (list (lambda ((& X) X2) (+ X X2)) (let ((X (* X 2))) X)))) (G A))", "(3 4)", "9"),
+        // quoted data spelled like a macro call (F32: the strict dialects expanded it)
+        ("(mod (X) (q . ((list 1 2) X)))", "(5)", "((\"list\" 1 2) 88)"),
+        ("(mod (X) (list (q . (if 1 2 3)) (if X (q . (list 9)) (list 1 (q list 2)))))", "(5)", "((\"if\" 1 2 3) (\"list\" 9))"),
+        // user functions spelled c / f / r next to compiler-made cons / first / rest (F33)
+        ("(mod (A) (defun c (X Y) (* X Y)) (defun G (A) (qq (7 (unquote (c A 2))))) (G A))", "(5)", "(7 10)"),
+        ("(mod (A) (defun f (X) (* X 99)) (defun-inline G ((P . Q)) (+ P 1)) (+ (f (r A)) (G A)))", "((5 . 6))", "600"),
+        ("(mod (A) (defun r (X) (* X 99)) (defun-inline G ((P . Q)) (+ Q 1)) (+ (r (f A)) (G A)))", "((5 . 6))", "502"),
+        ("(mod (A) (defun c (X Y) (* X Y)) (defun G (A) (let ((B (+ A 1))) (let ((C (c B 2))) (+ C B)))) (G A))", "(5)", "18"),
+        ("(mod (A) (defun r (X) (* X 2)) (defun G (A) (let ((B (+ A 1))) (* B (r 3)))) (G A))", "(5)", "36"),
+        ("(mod (A) (defun r (X) (* X 2)) (defun G (A) (assign-lambda B (+ A 1) (* B (r 3)))) (G A))", "(5)", "36"),
+        // qq: unquotes below a form headed by 1, and in tail position (F34)
+        ("(mod (X) (qq (1 (unquote X))))", "(50)", "(1 50)"),
+        ("(mod (X) (qq (7 . (unquote X))))", "(50)", "(7 . 50)"),
+        ("(mod (X) (qq ((unquote X) (8 (unquote (+ X 1))) . 9)))", "(50)", "(50 (8 51) . 9)"),
+        ("(mod (X) (qq (7 8 . 9)))", "(50)", "(7 8 . 9)"),
+        // a parameter spelled q / quote is a name like any other (F37)
+        ("(mod (A) (defun F (q x) (+ q x)) (F A 2))", "(10)", "12"),
+        ("(mod (A) (defun-inline F (quote x) (- quote x)) (F A 2))", "(10)", "8"),
+        // a binding expression that opens its own scope re-using a sibling's name (seed C01-d swapped the renaming passes)
+        ("(mod (A) (assign X (+ A 1) Y (let ((X (* A 2))) (+ X 1)) (+ X Y)))", "(5)", "17"),
+        ("(mod (A) (defun F (A) (assign X (+ A 1) Y (assign X (* A 10) (+ X 1)) (c X Y))) (F A))", "(5)", "(6 . 51)"),
+        ("(mod (A) (defun-inline F (A) (assign X (+ A 1) Y (let ((X (* X 10))) (+ X 1)) (c X Y))) (F A))", "(5)", "(6 . 61)"),
+        ("(mod (A) (defun G (A) (assign N (+ A 1) R (a (lambda ((& A) N) (* A N)) (c 7 ())) (c N (c R ())))) (G A))", "(5)", "(6 35)"),
+        // lambdas in every dialect (the withdrawn repair 57c15dc made each of them fail to compile in cl23.1 / cl24)
+        ("(mod (X) (defun g (X) (c (a (lambda ((& X) Z) (+ 1 (* Z Z X))) (list 3)) (a (lambda ((& X) Z) (+ 2 (* Z Z X))) (list 4)))) (g X))", "(5)", "(46 . 82)"),
+        ("(mod (X) (a (lambda ((& X) Z) (+ X Z)) (list 3)))", "(5)", "8"),
     ]
 }
+const ALL_DIALECTS: [&str; 6] = ["*standard-cl-21*", "*strict-cl-21*", "*standard-cl-22*", "*standard-cl-23*", "*standard-cl-23.1*", "*standard-cl-24*"];
 
 
 // ---- C16 (open case): the residual the REPL reduces (mod (X) EXPR) to, compiled with the same definitions, agrees with the
@@ -1472,17 +1534,30 @@ fn chk_determinism() -> Option<Value> {
     // second pass in reverse order (different history, a failed compile in between), third pass on another thread
     let _ = catch_unwind(|| compile_bytes_and_symbols("(mod (X) (include *standard-cl-23*) (+ X undefined_name))"));
     for (i, p) in progs.iter().enumerate().rev() {
+        if skipped(&json!({"source": p})) { continue; }
         let again = catch_unwind({ let p = p.clone(); move || compile_bytes_and_symbols(&p) }).unwrap_or(Err("panic".into()));
         if again.is_err() && first[i].is_err() { continue; }
-        if again != first[i] { return Some(hit(json!({"source": p, "history": "compiled a second time after other compilations (incl. a failed one)"}), format!("first: {}", first[i].as_ref().map(|x| x.0.iter().map(|b| format!("{:02x}", b)).collect::<String>()).unwrap_or_default()), format!("again: {}", again.as_ref().map(|x| x.0.iter().map(|b| format!("{:02x}", b)).collect::<String>()).unwrap_or_default()), "compile_clvm_text twice in one process: bytes or user-visible symbols differ")); }
+        if again != first[i] { return Some(hit(json!({"source": p}), format!("first: {}", first[i].as_ref().map(|x| x.0.iter().map(|b| format!("{:02x}", b)).collect::<String>()).unwrap_or_default()), format!("again: {}", again.as_ref().map(|x| x.0.iter().map(|b| format!("{:02x}", b)).collect::<String>()).unwrap_or_default()), "compile_clvm_text twice in one process: bytes or user-visible symbols differ")); }
     }
     // every program on a thread of its own (no per-thread history at all), in reverse order
     for (i, p) in progs.iter().enumerate().rev() {
+        if skipped(&json!({"source": p})) { continue; }
         let p2 = p.clone();
         let alone = std::thread::spawn(move || catch_unwind(move || compile_bytes_and_symbols(&p2)).unwrap_or(Err("panic".into()))).join().unwrap_or(Err("thread died".into()));
         if alone.is_err() && first[i].is_err() { continue; }
-        if alone != first[i] { return Some(hit(json!({"source": p, "history": "compiled on a fresh thread of its own vs after the other programs on the main thread"}), format!("{:?}", first[i].as_ref().map(|x| (x.0.len(), x.1.len()))), format!("{:?}", alone.as_ref().map(|x| (x.0.len(), x.1.len()))), "compile_clvm_text on a fresh thread vs in sequence")); }
+        if alone != first[i] { return Some(hit(json!({"source": p}), format!("{:?}", first[i].as_ref().map(|x| (x.0.len(), x.1.len()))), format!("{:?}", alone.as_ref().map(|x| (x.0.len(), x.1.len()))), "compile_clvm_text on a fresh thread vs in sequence")); }
     }
+    None
+}
+
+// one recorded program: compiled, then again after an unrelated compilation that draws generated names
+fn chk_determinism_one(src: &str) -> Option<Value> {
+    let p = src.to_string();
+    let first = catch_unwind({ let p = p.clone(); move || compile_bytes_and_symbols(&p) }).unwrap_or(Err("panic".into()));
+    let _ = catch_unwind(|| compile_bytes_and_symbols("(mod (X Y) (include *standard-cl-21*) (defun F (M N) (let ((S (+ M N)) (T (* M N))) (list S T))) (F X Y))"));
+    let again = catch_unwind({ let p = p.clone(); move || compile_bytes_and_symbols(&p) }).unwrap_or(Err("panic".into()));
+    if again.is_err() && first.is_err() { return None; }
+    if again != first { return Some(hit(json!({"source": src}), format!("first: {:?}", first.as_ref().map(|x| x.0.len())), format!("again differs: {:?}", again.as_ref().map(|x| x.0.len())), "compile_clvm_text twice in one process, another compilation in between")); }
     None
 }
 
@@ -1577,6 +1652,14 @@ pub fn search(name: &str, seed: u64) -> Value {
                 // a let-bound variable under an if inside a function
                 (vec!["(defun L5 (A) (let ((B (+ A 1))) (if B (* B 2) 0)))"], "(L5 10)"),
                 (vec!["(defun L6 (A) (let ((B (+ A 1))) (* B 2)))"], "(L6 10)"),
+                // boolean casts used for their value (seed C16-d reduced (not (not x)) to x)
+                (vec![], "(not (not 5))"),
+                (vec![], "(not (not (list 1 2)))"),
+                (vec!["(defun to-bool (X) (not (not X)))"], "(to-bool 5)"),
+                (vec!["(defun flag-bit (X Y) (logior (not (not X)) Y))"], "(flag-bit 2 4)"),
+                (vec!["(defun nz (X) (+ 10 (not (not X)) (not X)))"], "(nz (q 7 8))"),
+                // the bare environment reference inside a function
+                (vec!["(defun WA (A B) @)"], "(WA 3 4)"),
             ];
             for (d, e) in cases.iter() { if skipped(&json!({"definitions": d, "expression": e})) { continue; } if let Some(v) = chk_repl(d, e) { return v; } }
             let open_args = ["((1 2))", "((7 8 9))", "(((5 6) 11))"];
@@ -1593,9 +1676,11 @@ pub fn search(name: &str, seed: u64) -> Value {
                 (vec!["(defun first-of ((a . b)) a)", "(defun f (x) 99)"], "(first-of X)"),
                 (vec!["(defun second-of ((a b)) b)", "(defun r (x) 98)"], "(+ 1 (second-of X))"),
                 (vec!["(defun pairup (a b) (list a b))", "(defun c (x y) 97)", "(defun both ((@ w (a b))) (pairup w a))"], "(both X)"),
+                (vec!["(defun flag-bit (P Q) (logior (not (not P)) Q))"], "(flag-bit (f X) 4)"),
+                (vec!["(defun tb (P) (not (not P)))"], "(c (tb X) (tb (f X)))"),
             ];
             for (d, e) in open_cases.iter() { if let Some(v) = chk_repl_open(d, e, &open_args) { return v; } }
-            nf("23 closed REPL sessions and 10 open ones (residual compiled and compared on 3 argument trees, incl. helpers spelled like the operators f / r / c) (arithmetic, recursion, inline, assign destructuring of 3/4/nested patterns, rest args, @ capture, constants, let/let*) reduce to the constant the compiled cl21 program returns")
+            nf("29 closed REPL sessions and 12 open ones (boolean casts used for their value, the bare @ inside a function) (residual compiled and compared on 3 argument trees, incl. helpers spelled like the operators f / r / c) (arithmetic, recursion, inline, assign destructuring of 3/4/nested patterns, rest args, @ capture, constants, let/let*) reduce to the constant the compiled cl21 program returns")
         }
         "classic_meaning" | "symbol_table_for_tree" | "unit:inlinesel" | "unit:symtable" => {
             // programs without a dialect sigil go through the classic (CLVM-hosted) compiler
@@ -1631,11 +1716,16 @@ pub fn search(name: &str, seed: u64) -> Value {
             nf("18 programs (incl. nested destructuring in inline parameters, captures below captures, a 36-element destructured argument, a capture name repeated inside its pattern) compiled by the classic compiler (plain and optimised) return the hand-computed values (which the cl21 build also returns, see source_meaning)")
         }
         "source_meaning" | "create_let_env_expression" | "cons_bodyform" | "create_name_lookup_" | "finalize_env_" => {
-            for (b, at, ex) in meaning_cases() { for d in [Some("*standard-cl-21*"), Some("*standard-cl-23*")] {
-                if skipped(&json!({"program": b, "dialect": d, "args": at})) { continue; }
-                if let Some(mut v) = chk_meaning(b, d, at, ex) { v["input"] = json!({"program": b, "dialect": d, "args": at}); return v; }
+            let mut n = 0;
+            for (b, at, ex) in meaning_cases() { for d in ALL_DIALECTS.iter().map(|d| Some(*d)) {
+                let inp = json!({"program": b, "dialect": d, "args": at, "expected": ex});
+                if skipped(&inp) { continue; }
+                n += 1;
+                if let Some(mut v) = chk_meaning(b, d, at, ex) { v["input"] = inp; return v; }
             } }
-            nf("36 programs (functions, inlines, binders inside &rest tails that re-use visible names, let inside inline functions with @ captures, parameters drawn from a &rest tail with and without a rest parameter, quoted data containing (1), quoted atoms spelled like parameters, nested destructuring in inline parameters, nested mod in main / in defun, destructuring, @ capture, rest arguments, let/let*, recursion, macro, constants) x cl21/cl23 return the hand-computed values")
+            let rejected = NOT_ACCEPTED.with(|c| c.get());
+            if rejected * 4 > n { return json!({"found": false, "error": true, "how": format!("{} of {} program x dialect pairs were rejected by the compiler: too few left to say anything", rejected, n)}); }
+            nf(&format!("{} ({} program x dialect pairs, {} of them rejected by that dialect's compiler and so outside C01)", "58 programs (quoted data spelled like macro calls, user functions spelled c / f / r next to compiler-made projections, qq with unquotes below a 1-headed form and in tail position, parameters spelled q / quote, assign bindings that open a scope re-using a sibling's name, lambdas, functions, inlines, binders inside &rest tails that re-use visible names, let inside inline functions with @ captures, parameters drawn from a &rest tail with and without a rest parameter, quoted data containing (1), quoted atoms spelled like parameters, nested destructuring in inline parameters, nested mod in main / in defun, destructuring, @ capture, rest arguments, let/let*, recursion, macro, constants) x all six dialect sigils return the hand-computed values", n, rejected))
         }
         "opt_levels" | "null_optimization" | "null_optimization_of_code" | "post_codegen_function_optimize" | "post_codegen_output_optimize" | "atomize" => {
             let progs: Vec<(&str, Vec<&str>)> = vec![
@@ -1664,9 +1754,22 @@ pub fn search(name: &str, seed: u64) -> Value {
                 ("(mod (X) (not (not X)))", vec!["(5)", "(0)", "((1 2))"]),
                 ("(mod (X Y) (defun both (A B) (logior (not (not A)) (* 2 (not (not B))))) (both X Y))", vec!["(5 7)", "(0 (1))", "(3 0)"]),
                 ("(mod (X) (defun flag (A) (if (not (not A)) (+ 10 (not (not A))) (not A))) (flag X))", vec!["(9)", "(0)"]),
+                // a call with constant arguments inside a helper (F31: folding it recompiled the helpers with folding on, without end)
+                ("(mod (X) (defun f (A B) (+ A B 1)) (defun g (X) (+ X (f 3 4))) (g X))", vec!["(5)"]),
+                ("(mod (X) (defun fact (N) (if N (* N (fact (- N 1))) 1)) (defun g (X) (+ X (fact 5))) (g X))", vec!["(5)"]),
+                // the same call under an outer guard's then-branch and under an inner guard in its else-branch (F36: hoisted above both)
+                ("(mod (A B X) (defun f (X) (if (l X) (f (r X)) (if X (x X) 99))) (defun g (A B X) (if A (f X) (if B (f X) 0))) (g A B X))", vec!["(0 0 (1 2 . 3))", "(1 0 (1 2))", "(0 1 (1 2))"]),
+                ("(mod (A B X) (defun g (A B X) (if A (g 0 0 X) (if B (g 0 0 X) X))) (g A B X))", vec!["(1 0 7)", "(0 1 7)"]),
+                ("(mod (A B X) (defun g (A B X) (if A (if B (sha256 X X X) 1) (if B 2 (sha256 X X X)))) (g A B X))", vec!["(1 0 (1))", "(0 1 (1))", "(1 1 5)"]),
+                // repeated expressions that part ways inside an assign form below the root of the function body (F38: bound at the root, outside the assign)
+                ("(mod (X) (defun g (X) (+ 1 (assign y (* X 2) z (* y 3) (+ z (* y 3))))) (g X))", vec!["(5)"]),
+                ("(mod (X) (defun g (X) (list (assign y (* X 2) z (* y 3) (+ z (* y 3))) (assign y (+ X 2) z (* y 3) (+ z (* y 3))))) (g X))", vec!["(5)"]),
+                ("(mod (X) (defun g (X) (if X (assign y (* X 2) (assign z (* y 3) w (+ z (* y 3)) (+ w (* y 3) (* X 7) (* X 7)))) (* X 7))) (g X))", vec!["(5)", "(0)"]),
+                // two lambdas with a shared capture in one function
+                ("(mod (X) (defun g (X) (c (a (lambda ((& X) Z) (+ 1 (* Z Z X))) (list 3)) (a (lambda ((& X) Z) (+ 2 (* Z Z X))) (list 4)))) (g X))", vec!["(5)"]),
             ];
             for (b, argss) in progs.iter() { for at in argss { if skipped(&json!({"program": b, "args": at})) { continue; } if let Some(v) = chk_opt_levels(b, at) { return v; } } }
-            nf("21 programs (incl. a zero-byte constant condition, apply of a doubly quoted value, boolean casts (not (not x)) used as values, quoted data containing (1), repeated expressions under sibling and nested guards that raise when hoisted, let* chains) x argument sets: cl21/cl22/cl23 with -O off and on all agree on the returned value")
+            nf("30 programs (incl. constant calls inside helpers, calls repeated under guards that do not cover each other at two depths, repeated expressions inside nested assign forms, lambdas sharing a capture, a zero-byte constant condition, apply of a doubly quoted value, boolean casts (not (not x)) used as values, quoted data containing (1), repeated expressions under sibling and nested guards that raise when hoisted, let* chains) x argument sets: cl21/cl22/cl23 with -O off and on all agree on the returned value")
         }
         "bigint_from_bytes" | "bigint_to_bytes_clvm" | "bigint_to_bytes_unsigned" => {
             for len in 0..14usize { for pat in 0..6u8 { for signed in [false, true] {
@@ -1694,7 +1797,15 @@ pub fn search(name: &str, seed: u64) -> Value {
             // optimising cl21 build: functions whose optimised code is a bare atom (identity, accessor) are still found through their entry
             let opt_src = "(mod (A B) (include *standard-cl-21*) (defun add1 (X) (+ X 1)) (defun ident (X) X) (defun second (L) (f (r L))) (+ (add1 A) (ident A) (second B)))";
             for (pre, b, ex) in [("add1", vec![("X", 41i64)], "42"), ("ident", vec![("X", 41)], "41")] { if let Some(v) = chk_symbol_call_opt(opt_src, pre, &b, ex, true) { return v; } }
-            nf("symbol entries agree with the emitted program and the source argument lists on 5 programs (incl. two functions with identical code in both orders)")
+            // command-line path: functions whose whole code is one atom (F35: the location entry of that atom replaced the name)
+            for (srcx, funs) in [("(mod (X) (include *standard-cl-23*) (defun f (Y) Y) (c (f X) (f 3)))", vec!["f"]), ("(mod (X) (include *standard-cl-23*) (defun sec (P Q) Q) (defun dbl (A) (* A 2)) (c (sec X (dbl X)) (sec 3 X)))", vec!["sec", "dbl"]), ("(mod (X) (include *standard-cl-21*) (defun f (Y) Y) (defun g (A B) (+ A B)) (g (f X) 1))", vec!["f", "g"])] {
+                if let Some(v) = chk_symbols_cli(srcx, &funs) { return v; }
+            }
+            // identical code, different argument lists: name and arguments under the key belong to the same function (seed C13-d)
+            for (srcx, pairs) in [("(mod (X) (include *standard-cl-21*) (defun first-of (A) A) (defun pick (A B) A) (+ (first-of X) (pick X 7)))", vec![("first-of", "(A)"), ("pick", "(A B)")]), ("(mod (X) (include *standard-cl-21*) (defun tail-of ((A B) C) (* C 2)) (defun dbl (P C) (* C 2)) (+ (tail-of (list X X) X) (dbl X X)))", vec![("tail-of", "((A B) C)"), ("dbl", "(P C)")])] {
+                if let Some(v) = chk_symbols(srcx, &pairs, false) { return v; }
+            }
+            nf("symbol entries agree with the emitted program and the source argument lists on 7 programs (incl. functions with identical code in both orders and with different argument lists); the command-line table keeps every name on 3 programs with single-atom function bodies")
         }
         "entry_points" => {
             let bodies = ["(mod (X) (defun f (A) (* A 2)) (f (+ X 1)))", "(mod (X Y) (defun-inline g (A B) (+ A B)) (let ((z (g X Y))) (* z z)))", "(mod (X) (defconstant K 7) (if X (+ K X) K))",
@@ -1765,7 +1876,12 @@ pub fn search(name: &str, seed: u64) -> Value {
                     for m in [d, u, w, dot, t] { n += 1; if let Some(v) = chk_compile_no_panic(&join(&m)) { return v; } }
                 }
             }
-            nf(&format!("{} token-level mutations (delete, duplicate, swap with the next, replace by a dot, truncate) of 6 valid programs compile to a result or an error", n))
+            // valid programs that once sent the compiler into unbounded recursion (F31): compiled in a child process, which must return
+            for d in ["*standard-cl-23*", "*standard-cl-24*"] { for b in ["(mod (X) (defun f (A B) (+ A B 1)) (defun g (X) (+ X (f 3 4))) (g X))", "(mod (X) (defun f (A) (* A 2)) (defun h (X) (f 9)) (defun g (X) (+ X (f 3) (h 1))) (g X))"] {
+                let srcx = with_dialect(b, d);
+                if let Err(e) = compile_in_child(&srcx) { if e.starts_with("<killed") { return hit(json!({"program": srcx}), "a result or an error".into(), e, "compile_clvm_text_maybe_opt in a child process"); } }
+            } }
+            nf(&format!("{} token-level mutations (delete, duplicate, swap with the next, replace by a dot, truncate) of 6 valid programs compile to a result or an error; 4 programs with constant calls inside helpers compile in a child process", n))
         }
         "no_panic" => {
             match std::env::var("VERIF_NOPANIC_CHILD") {
@@ -1884,6 +2000,8 @@ pub fn search(name: &str, seed: u64) -> Value {
 
 pub fn run_input(name: &str, input: &Value) -> Value {
     match name {
+        "determinism" => chk_determinism_one(input["source"].as_str().unwrap_or("")).unwrap_or_else(|| nf("input does not violate the contract on this tree")),
+        "source_meaning" => chk_meaning(input["program"].as_str().unwrap_or(""), input["dialect"].as_str(), input["args"].as_str().unwrap_or("()"), input["expected"].as_str().unwrap_or("()")).unwrap_or_else(|| nf("input does not violate the contract on this tree")),
         "opt_levels" => chk_opt_levels(input["program"].as_str().unwrap_or(""), input["args"].as_str().unwrap_or("()")).unwrap_or_else(|| nf("input does not violate the contract on this tree")),
         "modern_print" => (if let Some(p) = input["program"].as_str() { chk_modern_print_program(p) } else { chk_modern_print(&bytes(&input["clvm_bytes"])) }).unwrap_or_else(|| nf("input does not violate the contract on this tree")),
         "disassemble" | "ir_for_atom" | "consume_quoted" | "pybytes_repr" => chk_disasm(&bytes(&input["clvm_bytes"])).unwrap_or_else(|| nf("input does not violate the contract on this tree")),
